@@ -74,6 +74,38 @@ impl DetectProp for C05 {
             // hints excluded
             c.sett.excl = vec!["ascii".into(), "UTF8".into()];
         }
+        if _idx % 11 == 6 {
+            // a long list: every label and alias (in assorted spellings) of a handful of encodings, sorted or
+            // shuffled, with repeats – 40 to 120 entries naming 3 to 8 encodings
+            let k = rng.range(3, 9);
+            let mut chosen: Vec<&str> = vec![];
+            while chosen.len() < k {
+                let n = *rng.pick(&sup);
+                if !chosen.contains(&n) {
+                    chosen.push(n);
+                }
+            }
+            let mut list: Vec<String> = vec![];
+            let target = rng.range(40, 121);
+            while list.len() < target {
+                let n = *rng.pick(&chosen);
+                let al = charset_normalizer_rs::consts::IANA_SUPPORTED_ALIASES.get(n).cloned().unwrap_or_default();
+                let pool: Vec<&str> = al.iter().copied().filter(|a| iana_name(a) == Some(n)).chain(std::iter::once(n)).collect();
+                let l = *rng.pick(&pool);
+                list.push(if rng.chance(1, 2) && l != "ascii" && l != "iso-8859-1" && l != "hz" { pad_and_case(rng, l) } else { l.to_string() });
+            }
+            if rng.chance(1, 2) {
+                list.sort();
+            }
+            c.sett.incl.clear();
+            c.sett.excl.clear();
+            if rng.chance(2, 3) {
+                c.sett.incl = list;
+            } else {
+                c.sett.excl = list;
+            }
+            c.tag = format!("long-filter-list:{}", c.tag);
+        }
         if rng.chance(1, 25) {
             c.bytes.clear();
         }
